@@ -12,26 +12,27 @@ Arguments c_int : simpl never.
 Arguments Qfloor : simpl never.
 
 (* ------------------------------------------------------------------ play_tone *)
-Lemma clamp0_nonpos_le q : qle q q0 = true -> qle (clamp0 q) q0 = true.
+Lemma qlt_half_cases f : {qle qhalf f = true} + {qlt f qhalf = true}.
 Proof.
-  intro H. unfold clamp0. destruct (qlt q q0); [reflexivity|exact H].
+  destruct (qle qhalf f) eqn:E; [left; reflexivity|right].
+  apply qlt_true. apply qle_false. exact E.
 Qed.
 
 (* C16_play_tone *)
-Lemma play_tone_protocol : forall pin neg tbl st f d,
-  (qlt q0 f = true ->
-     dstep pin neg tbl st (PlayTone f None) = (mkbz true f f, [Tone pin (tone_of f)]) /\
-     dstep pin neg tbl st (PlayTone f (Some d)) =
-       (mkbz false q0 f, [Tone pin (tone_of f)] ++ dl (c_ulong neg d) ++ [NoTone pin])) /\
-  (qle f q0 = true ->
-     dstep pin neg tbl st (PlayTone f None) = (quiet st, [NoTone pin]) /\
-     dstep pin neg tbl st (PlayTone f (Some d)) = (quiet st, [NoTone pin] ++ dl (c_ulong neg d))).
+Lemma play_tone_protocol : forall pin tbl st f d,
+  (qle qhalf f = true ->
+     dstep pin tbl st (PlayTone f None) = (mkbz true f f, [Tone pin (tone_of f)]) /\
+     dstep pin tbl st (PlayTone f (Some d)) =
+       (mkbz false q0 f, [Tone pin (tone_of f)] ++ dl (c_ulong d) ++ [NoTone pin])) /\
+  (qlt f qhalf = true ->
+     dstep pin tbl st (PlayTone f None) = (quiet st, [NoTone pin]) /\
+     dstep pin tbl st (PlayTone f (Some d)) = (quiet st, [NoTone pin] ++ dl (c_ulong d))).
 Proof.
-  intros pin neg tbl st f d. split; intro H; cbn [dstep]; unfold play_tone.
-  - rewrite (clamp0_pos _ H). rewrite qle_qlt, H. cbn [negb start_tone quiet b_last].
+  intros pin tbl st f d. split; intro H; cbn [dstep]; unfold play_tone.
+  - rewrite (clamph_ge _ H). rewrite qle_qlt, (qhalf_pos _ H). cbn [negb start_tone quiet b_last].
     split; reflexivity.
-  - rewrite (clamp0_nonpos_le _ H). rewrite (clamp0_nonpos _ H). cbn [silence quiet b_last].
-    rewrite app_nil_r. split; reflexivity.
+  - rewrite (clamph_lt _ H). change (qle q0 q0) with true. change (qlt q0 q0) with false.
+    cbn [silence quiet b_last]. rewrite app_nil_r. split; reflexivity.
 Qed.
 
 (* ------------------------------------------------------------------ melody: notes and delays *)
@@ -112,16 +113,16 @@ Proof.
 Qed.
 
 (* C16_melody_notes *)
-Lemma melody_notes : forall pin neg st name tempo t0 seq,
+Lemma melody_notes : forall pin st name tempo t0 seq,
   tlookup name spec_melodies = Some (t0, seq) ->
   let beat := (Qmake 60000 1 / eff_tempo t0 tempo)%Q in
-  let tr := snd (dstep pin neg emitter_melodies st (Melody name tempo)) in
+  let tr := snd (dstep pin emitter_melodies st (Melody name tempo)) in
   tones tr = map tone_of (positives (map fst seq)) /\
   delays tr = note_delays beat seq /\
   notones tr = length seq /\
   (inject_Z (delay_sum tr) <= beats_total seq * beat)%Q.
 Proof.
-  intros pin neg st name tempo t0 seq H beat tr.
+  intros pin st name tempo t0 seq H beat tr.
   assert (Htr : tr = play_score pin beat seq) by (apply melody_plays_pinned_score; exact H).
   rewrite Htr. split; [apply tones_play_score|]. split; [apply delays_play_score|].
   split; [apply notones_play_score|].
@@ -157,20 +158,22 @@ Proof.
     lia.
 Qed.
 
+Lemma delay_sum_notone pin : delay_sum [NoTone pin] = 0.
+Proof. reflexivity. Qed.
+
 (* C16_beep_duration *)
-Lemma beep_duration : forall pin neg tbl st f on off times,
-  let target := clamp0 (match f with Some q => q | None => get_last_frequency st end) in
+Lemma beep_duration : forall pin tbl st f on off times,
+  let target := clamph (match f with Some q => q | None => get_last_frequency st end) in
   let n := c_int times in
-  let tr := snd (dstep pin neg tbl st (Beep f on off times)) in
-  qlt q0 target = true -> qle q0 on = true -> qle q0 off = true -> 1 <= n ->
-  delay_sum tr = n * Qfloor on + (n - 1) * Qfloor off.
+  let tr := snd (dstep pin tbl st (Beep f on off times)) in
+  qlt q0 target = true -> 1 <= n ->
+  delay_sum tr = n * c_ulong on + (n - 1) * c_ulong off.
 Proof.
-  intros pin neg tbl st f on off times target n tr Ht Hon Hoff Hn.
-  destruct (beep_counts pin neg tbl st f on off times) as [Hpos _].
+  intros pin tbl st f on off times target n tr Ht Hn.
+  destruct (beep_counts pin tbl st f on off times) as [Hpos _].
   destruct (Hpos Ht) as (Htr & _ & _). fold tr in Htr. rewrite Htr.
-  destruct (c_ulong_nonneg neg on Hon) as [Eon Pon].
-  destruct (c_ulong_nonneg neg off Hoff) as [Eoff Poff].
-  rewrite Eon, Eoff.
+  pose proof (c_ulong_ge0 on) as Pon. pose proof (c_ulong_ge0 off) as Poff.
+  rewrite delay_sum_app, delay_sum_notone, Z.add_0_r.
   fold n. destruct (Z.to_nat n) as [|k] eqn:Ek; [lia|].
   rewrite delay_sum_beeps by assumption.
   assert (Hk : Z.of_nat (S k) = n) by (rewrite <- Ek; apply Z2Nat.id; lia).
@@ -246,40 +249,37 @@ Proof.
 Qed.
 
 (* C16_last_frequency_exact *)
-Lemma last_frequency_exact : forall pin neg tbl st o,
-  get_last_frequency (fst (dstep pin neg tbl st o)) = last_after tbl st o.
+Lemma last_frequency_exact : forall pin tbl st o,
+  get_last_frequency (fst (dstep pin tbl st o)) = last_after tbl st o.
 Proof.
-  intros pin neg tbl st o. unfold get_last_frequency.
-  destruct o as [f d| |f on off times|s e dq steps|name tempo]; cbn [dstep last_after].
-  - destruct (qlt q0 f) eqn:E.
-    + destruct (play_tone_protocol pin neg tbl st f (Qmake 0 1)) as [Hp _].
-      destruct d as [d|].
-      * destruct (play_tone_protocol pin neg tbl st f d) as [Hp' _].
-        destruct (Hp' E) as [_ H2]. cbn [dstep] in H2. rewrite H2. reflexivity.
-      * destruct (Hp E) as [H1 _]. cbn [dstep] in H1. rewrite H1. reflexivity.
-    + assert (E' : qle f q0 = true) by (rewrite qle_qlt, E; reflexivity).
-      destruct d as [d|].
-      * destruct (play_tone_protocol pin neg tbl st f d) as [_ Hp'].
-        destruct (Hp' E') as [_ H2]. cbn [dstep] in H2. rewrite H2. reflexivity.
-      * destruct (play_tone_protocol pin neg tbl st f (Qmake 0 1)) as [_ Hp].
-        destruct (Hp E') as [H1 _]. cbn [dstep] in H1. rewrite H1. reflexivity.
+  intros pin tbl st o. unfold get_last_frequency.
+  destruct o as [f d| |f on off times|s e dq steps|name tempo]; cbn [last_after].
+  - destruct (play_tone_protocol pin tbl st f (match d with Some x => x | None => q0 end)) as [Hp Hn].
+    destruct (qlt_half_cases f) as [E|E].
+    + rewrite E. destruct (Hp E) as [H1 H2]. destruct d as [d|]; [rewrite H2|rewrite H1]; reflexivity.
+    + assert (E' : qle qhalf f = false) by (apply qle_false; apply qlt_true; exact E).
+      rewrite E'. destruct (Hn E) as [H1 H2]. destruct d as [d|]; [rewrite H2|rewrite H1]; reflexivity.
   - reflexivity.
-  - unfold beep. rewrite beep_loop_last.
+  - cbn [dstep]. unfold beep.
+    match goal with |- context [beep_loop ?p ?t ?on' ?off' ?k ?s0] =>
+      pose proof (beep_loop_last p t on' off' k s0) as Hl;
+      destruct (beep_loop p t on' off' k s0) as [st1 e1] end.
+    cbn [fst quiet b_last] in *. rewrite Hl.
     assert (Hk : negb (Nat.eqb (Z.to_nat (Z.max 0 (c_int times))) 0) = (1 <=? c_int times)).
     { destruct (1 <=? c_int times) eqn:E.
       - apply Z.leb_le in E. destruct (Z.to_nat (Z.max 0 (c_int times))) eqn:Ek; [lia|reflexivity].
       - apply Z.leb_gt in E. replace (Z.max 0 (c_int times)) with 0 by lia. reflexivity. }
     rewrite Hk. reflexivity.
-  - unfold sweep, sweep_freqs.
+  - cbn [dstep]. unfold sweep, sweep_freqs.
     pose proof (sweep_loop_last pin (clamp0 s) (clamp0 e) (Z.max 1 (c_int steps))
-                 (inject_Z (f32z (c_ulong neg dq)) / inject_Z (Z.max 1 (c_int steps)))%Q
+                 (c_ulong dq / Z.max 1 (c_int steps))
                  (Z.to_nat (Z.max 1 (c_int steps))) 0%nat st) as Hl.
     change (Z.of_nat 0) with 0 in Hl.
     destruct (sweep_loop pin (clamp0 s) (clamp0 e) (Z.max 1 (c_int steps))
-                (inject_Z (f32z (c_ulong neg dq)) / inject_Z (Z.max 1 (c_int steps)))%Q
+                (c_ulong dq / Z.max 1 (c_int steps))
                 (Z.to_nat (Z.max 1 (c_int steps))) 0 st) as [st1 e1].
     cbn [fst quiet b_last] in *. exact Hl.
-  - unfold melody, score in *. destruct (tlookup name tbl) as [[t0 seq]|]; [|reflexivity].
+  - cbn [dstep]. unfold melody, score in *. destruct (tlookup name tbl) as [[t0 seq]|]; [|reflexivity].
     apply melody_loop_last.
 Qed.
 
@@ -287,12 +287,12 @@ Qed.
 Lemma last_app_single {A} (l : list A) x d : last (l ++ [x]) d = x.
 Proof. apply last_last. Qed.
 
-(* C16_last_frequency_sweep: a sweep whose end frequency is positive leaves get_last_frequency == end *)
-Lemma last_frequency_sweep : forall pin neg tbl st s e d steps,
-  qlt q0 e = true ->
-  (get_last_frequency (fst (dstep pin neg tbl st (Sweep s e d steps))) == e)%Q.
+(* C16_last_frequency_sweep: a sweep whose end frequency is audible leaves get_last_frequency == end *)
+Lemma last_frequency_sweep : forall pin tbl st s e d steps,
+  qle qhalf e = true ->
+  (get_last_frequency (fst (dstep pin tbl st (Sweep s e d steps))) == e)%Q.
 Proof.
-  intros pin neg tbl st s e d steps He.
+  intros pin tbl st s e d steps He.
   rewrite last_frequency_exact. cbn [last_after].
   set (n := Z.max 1 (c_int steps)).
   assert (Hn : 1 <= n) by (subst n; lia).
@@ -301,11 +301,11 @@ Proof.
   rewrite (seq_last_split _ Hnat), map_app, positives_app. cbn [map].
   replace (Z.of_nat (Z.to_nat n - 1)) with (n - 1) by lia.
   pose proof (sweep_freq_last (clamp0 s) (clamp0 e) n Hn) as Hl.
-  assert (Hce : clamp0 (clamp0 e) = e).
-  { rewrite (clamp0_pos _ He). apply clamp0_pos. exact He. }
+  assert (Hce : clamph (clamp0 e) = e).
+  { rewrite (clamp0_pos _ (qhalf_pos _ He)). apply clamph_ge. exact He. }
   rewrite Hce in Hl.
   assert (Hpos : qlt q0 (sweep_freq (clamp0 s) (clamp0 e) n (n - 1)) = true).
-  { apply qlt_true. rewrite Hl. apply qlt_true. exact He. }
+  { apply qlt_true. rewrite Hl. apply qlt_true. apply qhalf_pos. exact He. }
   unfold positives at 2. cbn [filter]. rewrite Hpos.
   rewrite last_app_single. exact Hl.
 Qed.
@@ -334,6 +334,9 @@ Section Bounded.
   Lemma clamp0_le x : (x <= M)%Q -> (clamp0 x <= M)%Q.
   Proof. intro H. unfold clamp0. destruct (qlt x q0); [exact M_nonneg|exact H]. Qed.
 
+  Lemma clamph_le x : (x <= M)%Q -> (clamph x <= M)%Q.
+  Proof. intro H. unfold clamph. destruct (qlt x qhalf); [exact M_nonneg|exact H]. Qed.
+
   Ltac fb := repeat first [ apply Forall_app; split | apply Forall_nil | assumption
                           | apply Forall_dl; intro; exact I | apply Forall_qdelay; intro; exact I
                           | apply Forall_cons; [exact I|] ].
@@ -361,7 +364,7 @@ Section Bounded.
   Lemma sweep_freq_le s e n i : (s <= M)%Q -> (e <= M)%Q -> 1 <= n -> 0 <= i <= n - 1 ->
     (sweep_freq s e n i <= M)%Q.
   Proof.
-    intros Hs He Hn Hi. unfold sweep_freq. apply clamp0_le.
+    intros Hs He Hn Hi. unfold sweep_freq. apply clamph_le.
     destruct (n =? 1) eqn:E.
     - setoid_replace (s + (e - s) * (1 # 1))%Q with e by ring. exact He.
     - apply Z.eqb_neq in E. destruct (progress_range n i ltac:(lia) Hi) as [H0 H1].
@@ -413,37 +416,40 @@ Section Bounded.
     - apply (IH H2 _ _ _ Hl).
   Qed.
 
-  Lemma dstep_le neg tbl st o : table_le M tbl = true -> freq_le M o = true -> (b_last st <= M)%Q ->
-    Forall P (snd (dstep pin neg tbl st o)) /\ (b_last (fst (dstep pin neg tbl st o)) <= M)%Q.
+  Lemma dstep_le tbl st o : table_le M tbl = true -> freq_le M o = true -> (b_last st <= M)%Q ->
+    Forall P (snd (dstep pin tbl st o)) /\ (b_last (fst (dstep pin tbl st o)) <= M)%Q.
   Proof.
     intros Ht Ho Hl. destruct o as [f dur| |f on off times|s e dq steps|name tempo]; cbn [freq_le] in Ho.
     - apply qle_true in Ho.
-      destruct (qlt q0 f) eqn:E.
-      + destruct (play_tone_protocol pin neg tbl st f (match dur with Some d => d | None => q0 end)) as [Hp _].
-        destruct (Hp E) as [H1 H2].
+      destruct (play_tone_protocol pin tbl st f (match dur with Some d => d | None => q0 end)) as [Hp Hn].
+      destruct (qlt_half_cases f) as [E|E].
+      + destruct (Hp E) as [H1 H2]. pose proof (qhalf_pos _ E) as Epos.
         destruct dur as [d|].
         * rewrite H2. cbn [fst snd b_last]. split; [|exact Ho].
           apply Forall_app; split; [apply Forall_cons; [apply P_tone; assumption|apply Forall_nil]|fb].
         * rewrite H1. cbn [fst snd b_last]. split; [|exact Ho].
           apply Forall_cons; [apply P_tone; assumption|apply Forall_nil].
-      + assert (E' : qle f q0 = true) by (rewrite qle_qlt, E; reflexivity).
-        destruct (play_tone_protocol pin neg tbl st f (match dur with Some d => d | None => q0 end)) as [_ Hp].
-        destruct (Hp E') as [H1 H2].
+      + destruct (Hn E) as [H1 H2].
         destruct dur as [d|].
         * rewrite H2. cbn [fst snd quiet b_last]. split; [fb|exact Hl].
         * rewrite H1. cbn [fst snd quiet b_last]. split; [fb|exact Hl].
     - cbn [dstep stop silence fst snd quiet b_last]. split; [fb|exact Hl].
-    - cbn [dstep]. unfold beep. apply beep_loop_le; [|exact Hl].
-      intros _. apply clamp0_le. destruct f as [f|]; [apply qle_true; exact Ho|exact Hl].
+    - cbn [dstep]. unfold beep.
+      match goal with |- context [beep_loop ?p ?t ?on' ?off' ?k ?s0] =>
+        assert (Hx : Forall P (snd (beep_loop p t on' off' k s0)) /\ (b_last (fst (beep_loop p t on' off' k s0)) <= M)%Q);
+        [|destruct (beep_loop p t on' off' k s0) as [st1 e1]] end.
+      { apply beep_loop_le; [|exact Hl].
+        intros _. apply clamph_le. destruct f as [f|]; [apply qle_true; exact Ho|exact Hl]. }
+      cbn [fst snd quiet b_last] in *. destruct Hx as [H1 L1]. split; [fb|exact L1].
     - apply andb_true_iff in Ho as [Hs He]. apply qle_true in Hs. apply qle_true in He.
       cbn [dstep]. unfold sweep.
       destruct (sweep_loop_le (clamp0 s) (clamp0 e) (Z.max 1 (c_int steps))
-                  (inject_Z (f32z (c_ulong neg dq)) / inject_Z (Z.max 1 (c_int steps)))%Q
+                  (c_ulong dq / Z.max 1 (c_int steps))
                   (Z.to_nat (Z.max 1 (c_int steps))) (clamp0_le _ Hs) (clamp0_le _ He) ltac:(lia)
                   0%nat st ltac:(lia) Hl) as [H1 L1].
       change (Z.of_nat 0) with 0 in *.
       destruct (sweep_loop pin (clamp0 s) (clamp0 e) (Z.max 1 (c_int steps))
-                  (inject_Z (f32z (c_ulong neg dq)) / inject_Z (Z.max 1 (c_int steps)))%Q
+                  (c_ulong dq / Z.max 1 (c_int steps))
                   (Z.to_nat (Z.max 1 (c_int steps))) 0 st) as [st1 e1].
       cbn [fst snd quiet b_last] in *. split; [fb|exact L1].
     - cbn [dstep]. unfold melody, score in *. destruct (tlookup name tbl) as [[t0 seq]|] eqn:El.
@@ -451,26 +457,26 @@ Section Bounded.
       + cbn [fst snd]. split; [constructor|exact Hl].
   Qed.
 
-  Lemma run_le neg tbl ops : table_le M tbl = true -> forall st,
+  Lemma run_le tbl ops : table_le M tbl = true -> forall st,
     forallb (freq_le M) ops = true -> (b_last st <= M)%Q ->
-    Forall P (snd (run pin neg tbl st ops)).
+    Forall P (snd (run pin tbl st ops)).
   Proof.
     intro Ht. induction ops as [|o r IH]; intros st Ho Hl; [constructor|].
     cbn [forallb] in Ho. apply andb_true_iff in Ho as [Ho Hr].
-    cbn [run]. destruct (dstep_le neg tbl st o Ht Ho Hl) as [H1 L1].
-    destruct (dstep pin neg tbl st o) as [st1 e1]. cbn [fst snd] in *.
+    cbn [run]. destruct (dstep_le tbl st o Ht Ho Hl) as [H1 L1].
+    destruct (dstep pin tbl st o) as [st1 e1]. cbn [fst snd] in *.
     specialize (IH st1 Hr L1).
-    destruct (run pin neg tbl st1 r) as [st2 e2]. cbn [fst snd] in *.
+    destruct (run pin tbl st1 r) as [st2 e2]. cbn [fst snd] in *.
     apply Forall_app; split; assumption.
   Qed.
 End Bounded.
 
 (* C16_tone_value_bounded *)
-Lemma tone_value_bounded : forall pin neg tbl M default ops,
+Lemma tone_value_bounded : forall pin tbl M default ops,
   (0 <= M)%Q -> table_le M tbl = true -> qle default M = true -> forallb (freq_le M) ops = true ->
-  Forall (tone_le (tone_of M)) (snd (run pin neg tbl (init default) ops)).
+  Forall (tone_le (tone_of M)) (snd (run pin tbl (init default) ops)).
 Proof.
-  intros pin neg tbl M default ops HM Ht Hd Ho.
+  intros pin tbl M default ops HM Ht Hd Ho.
   apply run_le; try assumption. cbn. apply qle_true. exact Hd.
 Qed.
 
@@ -479,14 +485,14 @@ Proof. vm_compute. reflexivity. Qed.
 
 (* C16_tone_fits_16_bits: on the generated table, with every frequency argument and default_frequency
    <= 65535 the argument of every tone() is below 2^16 (the unsigned int of an AVR does not wrap) *)
-Lemma tone_fits_16_bits : forall pin neg default ops,
+Lemma tone_fits_16_bits : forall pin default ops,
   qle default (Qmake 65535 1) = true -> forallb (freq_le (Qmake 65535 1)) ops = true ->
   Forall (fun e => match e with Tone _ t => 0 <= t < 2 ^ 16 | _ => True end)
-         (snd (run pin neg emitter_melodies (init default) ops)).
+         (snd (run pin emitter_melodies (init default) ops)).
 Proof.
-  intros pin neg default ops Hd Ho.
+  intros pin default ops Hd Ho.
   assert (HM : (0 <= Qmake 65535 1)%Q) by (unfold Qle; cbn; lia).
-  pose proof (tone_value_bounded pin neg emitter_melodies (Qmake 65535 1) default ops HM
+  pose proof (tone_value_bounded pin emitter_melodies (Qmake 65535 1) default ops HM
                 generated_table_fits Hd Ho) as H.
   eapply Forall_impl; [|exact H].
   intros [p t|p|d]; cbn [tone_le]; auto. intros [H0 H1].
@@ -496,21 +502,15 @@ Qed.
 
 (* the guard is needed: play_tone(65536) asks for tone(pin, 65536) *)
 Lemma tone_fits_16_bits_guard_needed :
-  exists pin neg default ops,
+  exists pin default ops,
     Exists (fun e => match e with Tone _ t => 2 ^ 16 <= t | _ => False end)
-           (snd (run pin neg emitter_melodies (init default) ops)).
+           (snd (run pin emitter_melodies (init default) ops)).
 Proof.
-  exists 8, neg_literal, (Qmake 440 1), [PlayTone (Qmake 65536 1) None].
+  exists 8, (Qmake 440 1), [PlayTone (Qmake 65536 1) None].
   vm_compute. apply Exists_cons_hd. discriminate.
 Qed.
 
 (* ------------------------------------------------------------------ tone(pin, 0) *)
-Lemma tone_of_ge1 f : qle qhalf f = true -> 1 <= tone_of f.
-Proof.
-  intro H. apply qle_true in H. unfold tone_of. change 1 with (Qfloor 1).
-  apply Qfloor_resp_le. unfold qhalf in *. lra.
-Qed.
-
 Lemma tone_zero_iff : forall f, (0 < f)%Q -> (tone_of f = 0 <-> (f < 1 # 2)%Q).
 Proof.
   intros f Hp. split; intro H.
@@ -532,70 +532,30 @@ Qed.
 Lemma Forall_repeat {A} (Q : A -> Prop) x n : Q x -> Forall Q (repeat x n).
 Proof. intro H. induction n; cbn; constructor; auto. Qed.
 
-Lemma sweep_freq_ge_half s e n i : (qhalf <= s)%Q -> (qhalf <= e)%Q -> 1 <= n -> 0 <= i <= n - 1 ->
-  (qhalf <= sweep_freq s e n i)%Q.
+(* C16_no_zero_tone: no call ever issues tone(pin, 0) (melody: as long as the table has no note in (0, 1/2)) *)
+Lemma no_zero_tone : forall pin tbl st o,
+  half_guard tbl o = true ->
+  Forall (fun t => 1 <= t) (tones (snd (dstep pin tbl st o))).
 Proof.
-  intros Hs He Hn Hi. unfold sweep_freq.
-  assert (Hx : (qhalf <= s + (e - s) * (if n =? 1 then 1 # 1 else inject_Z i / (inject_Z n - (1 # 1))))%Q).
-  { destruct (n =? 1) eqn:E.
-    - setoid_replace (s + (e - s) * (1 # 1))%Q with e by ring. exact He.
-    - apply Z.eqb_neq in E. destruct (progress_range n i ltac:(lia) Hi) as [H0 H1].
-      set (p := (inject_Z i / (inject_Z n - (1 # 1)))%Q) in *. unfold qhalf in *. nra. }
-  unfold clamp0. destruct (qlt _ q0) eqn:Ec; [|exact Hx].
-  apply qlt_true in Ec. unfold qhalf, q0 in *. lra.
-Qed.
-
-Lemma Forall_map_filter_seq (R : Z -> Prop) (h : nat -> Z) (keep : nat -> bool) a k :
-  (forall j, (a <= j < a + k)%nat -> keep j = true -> R (h j)) ->
-  Forall R (map h (filter keep (seq a k))).
-Proof.
-  revert a. induction k as [|k IH]; intros a H; [constructor|].
-  cbn [seq filter]. destruct (keep a) eqn:E.
-  - cbn [map]. constructor; [apply H; [lia|exact E]|]. apply IH. intros j Hj. apply H. lia.
-  - apply IH. intros j Hj. apply H. lia.
-Qed.
-
-(* C16_no_zero_tone_partial *)
-Lemma no_zero_tone : forall pin neg tbl st o,
-  half_guard tbl (get_last_frequency st) o = true ->
-  Forall (fun t => 1 <= t) (tones (snd (dstep pin neg tbl st o))).
-Proof.
-  intros pin neg tbl st o H. unfold get_last_frequency in H.
+  intros pin tbl st o H.
   destruct o as [f dur| |f on off times|s e dq steps|name tempo]; cbn [half_guard] in H.
-  - destruct (qlt q0 f) eqn:E.
-    + destruct (play_tone_protocol pin neg tbl st f (match dur with Some d => d | None => q0 end)) as [Hp _].
-      destruct (Hp E) as [H1 H2]. pose proof (tone_of_ge1 f (audible_pos f H E)) as Hg.
+  - destruct (play_tone_protocol pin tbl st f (match dur with Some d => d | None => q0 end)) as [Hp Hn].
+    destruct (qlt_half_cases f) as [E|E].
+    + destruct (Hp E) as [H1 H2]. pose proof (tone_of_ge1 f E) as Hg.
       destruct dur as [d|].
       * rewrite H2. cbn [snd]. rewrite !tones_app, tones_dl. cbn. repeat constructor. exact Hg.
       * rewrite H1. cbn. repeat constructor. exact Hg.
-    + rewrite nonpositive_never_tones; [constructor|]. cbn. rewrite qle_qlt, E. reflexivity.
+    + destruct (Hn E) as [H1 H2].
+      destruct dur as [d|].
+      * rewrite H2. cbn [snd]. rewrite tones_app, tones_dl. cbn. constructor.
+      * rewrite H1. cbn. constructor.
   - cbn. constructor.
-  - destruct (beep_counts pin neg tbl st f on off times) as [Hpos Hneg].
-    set (target := clamp0 (match f with Some x => x | None => get_last_frequency st end)) in *.
+  - destruct (beep_counts pin tbl st f on off times) as [Hpos Hneg].
+    set (target := clamph (match f with Some x => x | None => get_last_frequency st end)) in *.
     destruct (qlt q0 target) eqn:E.
-    + destruct (Hpos eq_refl) as (_ & Ht & _). rewrite Ht. apply Forall_repeat.
-      apply tone_of_ge1.
-      assert (Ha : audible_arg (match f with Some x => x | None => get_last_frequency st end) = true).
-      { destruct f; exact H. }
-      assert (Hp : qlt q0 (match f with Some x => x | None => get_last_frequency st end) = true).
-      { subst target. unfold clamp0 in E. destruct (qlt _ q0) eqn:Ec in E; [discriminate|exact E]. }
-      subst target. rewrite (clamp0_pos _ Hp). apply audible_pos; assumption.
+    + destruct (Hpos eq_refl) as (_ & Ht & _ & Hg). rewrite Ht. apply Forall_repeat. exact Hg.
     + destruct (Hneg eq_refl) as (_ & Ht). rewrite Ht. constructor.
-  - apply orb_true_iff in H as [H|H].
-    + rewrite nonpositive_never_tones; [constructor|exact H].
-    + apply andb_true_iff in H as [Hs He].
-      rewrite sweep_tones.
-      assert (Hcs : clamp0 s = s).
-      { apply clamp0_pos. apply qlt_true. apply qle_true in Hs. unfold qhalf, q0 in *. lra. }
-      assert (Hce : clamp0 e = e).
-      { apply clamp0_pos. apply qlt_true. apply qle_true in He. unfold qhalf, q0 in *. lra. }
-      rewrite Hcs, Hce.
-      set (n := Z.max 1 (c_int steps)).
-      apply Forall_forall. intros t Hin. apply in_map_iff in Hin as (fq & Ht & Hin).
-      unfold positives in Hin. apply filter_In in Hin as [Hin _]. unfold sweep_freqs in Hin.
-      apply in_map_iff in Hin as (i & Hfq & Hi).
-      apply in_seq in Hi. subst t fq. apply tone_of_ge1. apply qle_true.
-      apply sweep_freq_ge_half; [apply qle_true; exact Hs|apply qle_true; exact He|subst n; lia|subst n; lia].
+  - destruct (sweep_protocol pin tbl st s e dq steps) as (_ & _ & Hz & _). exact Hz.
   - cbn [dstep]. unfold melody, score in *. destruct (tlookup name tbl) as [[t0 seq]|]; [|constructor].
     rewrite melody_loop_events, tones_play_score.
     apply Forall_forall. intros t Hin. apply in_map_iff in Hin as (fq & Ht & Hin).
@@ -606,15 +566,26 @@ Proof.
 Qed.
 
 (* every melody of the generated table is inside that guard *)
-Lemma generated_melodies_audible :
-  forallb (fun kv => forallb (fun fb => audible_arg (fst fb)) (snd (snd kv))) emitter_melodies = true.
+Lemma generated_melodies_audible : table_audible emitter_melodies = true.
 Proof. vm_compute. reflexivity. Qed.
 
-(* C16_tone_zero_refuted: play_tone(0.25) calls tone(pin, 0) *)
-Lemma tone_zero_refuted :
-  exists pin neg tbl st f, (0 < f)%Q /\ snd (dstep pin neg tbl st (PlayTone f None)) = [Tone pin 0].
+Lemma table_audible_guard tbl o : table_audible tbl = true -> half_guard tbl o = true.
 Proof.
-  exists 8, neg_literal, [], (init (Qmake 440 1)), (Qmake 1 4). split; [reflexivity|]. vm_compute. reflexivity.
+  intro H. destruct o as [f dur| |f on off times|s e dq steps|name tempo]; cbn [half_guard]; try reflexivity.
+  unfold table_audible in H. induction tbl as [|[k [t sq]] r IH]; [reflexivity|].
+  cbn [forallb snd] in H. apply andb_true_iff in H as [H1 H2]. cbn [tlookup].
+  destruct (text_eqb name k); [exact H1|apply IH; exact H2].
+Qed.
+
+(* the former witness, now silent: play_tone(0.25) issues noTone only and leaves get_state() false *)
+Lemma subhalf_is_silent : forall pin tbl st f,
+  qlt f qhalf = true ->
+  snd (dstep pin tbl st (PlayTone f None)) = [NoTone pin] /\
+  get_state (fst (dstep pin tbl st (PlayTone f None))) = false /\
+  get_last_frequency (fst (dstep pin tbl st (PlayTone f None))) = get_last_frequency st.
+Proof.
+  intros pin tbl st f H. destruct (play_tone_protocol pin tbl st f q0) as [_ Hn].
+  destruct (Hn H) as [H1 _]. rewrite H1. repeat split.
 Qed.
 
 (* ------------------------------------------------------------------ every sound is bounded *)
@@ -641,56 +612,60 @@ Proof.
   cbn [delay_sum delays flat_map zsum fold_right app]. lia.
 Qed.
 
-(* beep, in general (any target, any count): exactly n*on + max(0, n-1)*off ms *)
-Lemma beep_duration_general : forall pin neg tbl st f on off times,
-  qle q0 on = true -> qle q0 off = true ->
+(* beep, in general (any target, any count, any on/off): exactly n*on + max(0, n-1)*off ms, a negative
+   on_ms / off_ms counting as zero *)
+Lemma beep_duration_general : forall pin tbl st f on off times,
   let n := Z.max 0 (c_int times) in
-  delay_sum (snd (dstep pin neg tbl st (Beep f on off times))) = n * Qfloor on + Z.max 0 (n - 1) * Qfloor off.
+  delay_sum (snd (dstep pin tbl st (Beep f on off times))) = n * c_ulong on + Z.max 0 (n - 1) * c_ulong off.
 Proof.
-  intros pin neg tbl st f on off times Hon Hoff n.
-  destruct (c_ulong_nonneg neg on Hon) as [Eon Pon].
-  destruct (c_ulong_nonneg neg off Hoff) as [Eoff Poff].
-  cbn [dstep]. unfold beep. rewrite beep_loop_events, Eon, Eoff. fold n.
+  intros pin tbl st f on off times n.
+  pose proof (c_ulong_ge0 on) as Pon. pose proof (c_ulong_ge0 off) as Poff.
+  cbn [dstep]. unfold beep.
+  match goal with |- context [beep_loop ?p ?t ?on' ?off' ?k ?s0] =>
+    pose proof (beep_loop_events p t on' off' k s0) as He;
+    destruct (beep_loop p t on' off' k s0) as [st1 e1] end.
+  cbn [snd] in *. rewrite delay_sum_app, He. fold n.
   rewrite delay_sum_intercalate, delay_sum_dl by exact Poff.
-  assert (Hb : delay_sum (if qlt q0 (clamp0 (match f with Some q => q | None => b_last st end))
-                          then beep_block pin (tone_of (clamp0 (match f with Some q => q | None => b_last st end))) (Qfloor on)
-                          else mute_block pin (Qfloor on)) = Qfloor on).
+  assert (Hb : delay_sum (if qlt q0 (clamph (match f with Some q => q | None => b_last st end))
+                          then beep_block pin (tone_of (clamph (match f with Some q => q | None => b_last st end))) (c_ulong on)
+                          else mute_block pin (c_ulong on)) = c_ulong on).
   { destruct (qlt q0 _); [apply delay_sum_beep_block|apply delay_sum_mute_block]; exact Pon. }
-  rewrite Hb. rewrite Z2Nat.id by lia.
-  replace (Z.of_nat (pred (Z.to_nat n))) with (Z.max 0 (n - 1)) by lia. reflexivity.
+  rewrite Hb. rewrite Z2Nat.id by lia. cbn [delay_sum delays flat_map zsum fold_right app].
+  replace (Z.of_nat (pred (Z.to_nat n))) with (Z.max 0 (n - 1)) by lia. lia.
 Qed.
 
 Lemma emitter_beats_nonneg : forallb (fun kv => beats_nonneg (snd (snd kv))) emitter_melodies = true.
 Proof. vm_compute. reflexivity. Qed.
 
-(* C16_every_call_bounded *)
-Lemma every_call_bounded : forall pin neg st o,
-  nonneg_durations o = true ->
-  (inject_Z (delay_sum (snd (dstep pin neg emitter_melodies st o))) <= duration_bound emitter_melodies o)%Q.
+Lemma c_ulong_le_qmax0 d : (inject_Z (c_ulong d) <= qmax0 d)%Q.
 Proof.
-  intros pin neg st o H.
-  destruct o as [f [d|]| |f on off times|s e d steps|name tempo]; cbn [nonneg_durations duration_bound] in *.
-  - destruct (c_ulong_nonneg neg d H) as [Ed Pd].
-    destruct (qlt q0 f) eqn:E.
-    + destruct (play_tone_protocol pin neg emitter_melodies st f d) as [Hp _]. destruct (Hp E) as [_ H2].
-      rewrite H2. cbn [snd]. rewrite !delay_sum_app, Ed, delay_sum_dl by exact Pd.
-      cbn [delay_sum delays flat_map zsum fold_right app]. rewrite Z.add_0_l, Z.add_0_r. apply Qfloor_le.
-    + assert (E' : qle f q0 = true) by (rewrite qle_qlt, E; reflexivity).
-      destruct (play_tone_protocol pin neg emitter_melodies st f d) as [_ Hp]. destruct (Hp E') as [_ H2].
-      rewrite H2. cbn [snd]. rewrite !delay_sum_app, Ed, delay_sum_dl by exact Pd.
-      cbn [delay_sum delays flat_map zsum fold_right app]. rewrite Z.add_0_l. apply Qfloor_le.
-  - destruct (qlt q0 f) eqn:E.
-    + destruct (play_tone_protocol pin neg emitter_melodies st f q0) as [Hp _]. destruct (Hp E) as [H1 _].
-      rewrite H1. cbn. apply Qle_refl.
-    + assert (E' : qle f q0 = true) by (rewrite qle_qlt, E; reflexivity).
-      destruct (play_tone_protocol pin neg emitter_melodies st f q0) as [_ Hp]. destruct (Hp E') as [H1 _].
-      rewrite H1. cbn. apply Qle_refl.
+  unfold c_ulong, qmax0. destruct (qlt q0 d); [apply Qfloor_le|apply Qle_refl].
+Qed.
+
+(* C16_every_call_bounded *)
+Lemma every_call_bounded : forall pin st o,
+  (inject_Z (delay_sum (snd (dstep pin emitter_melodies st o))) <= duration_bound emitter_melodies o)%Q.
+Proof.
+  intros pin st o.
+  destruct o as [f [d|]| |f on off times|s e d steps|name tempo]; cbn [duration_bound] in *.
+  - pose proof (c_ulong_ge0 d) as Pd.
+    destruct (play_tone_protocol pin emitter_melodies st f d) as [Hp Hn].
+    destruct (qlt_half_cases f) as [E|E].
+    + destruct (Hp E) as [_ H2].
+      rewrite H2. cbn [snd]. rewrite !delay_sum_app, delay_sum_dl by exact Pd.
+      cbn [delay_sum delays flat_map zsum fold_right app]. rewrite Z.add_0_l, Z.add_0_r. apply c_ulong_le_qmax0.
+    + destruct (Hn E) as [_ H2].
+      rewrite H2. cbn [snd]. rewrite !delay_sum_app, delay_sum_dl by exact Pd.
+      cbn [delay_sum delays flat_map zsum fold_right app]. rewrite Z.add_0_l. apply c_ulong_le_qmax0.
+  - destruct (play_tone_protocol pin emitter_melodies st f q0) as [Hp Hn].
+    destruct (qlt_half_cases f) as [E|E].
+    + destruct (Hp E) as [H1 _]. rewrite H1. cbn. apply Qle_refl.
+    + destruct (Hn E) as [H1 _]. rewrite H1. cbn. apply Qle_refl.
   - cbn. apply Qle_refl.
-  - apply andb_true_iff in H as [Hon Hoff].
-    rewrite (beep_duration_general pin neg emitter_melodies st f on off times Hon Hoff). apply Qle_refl.
-  - apply andb_true_iff in H as [H Hsmall]. apply Z.ltb_lt in Hsmall.
-    destruct (sweep_protocol pin neg emitter_melodies st s e d steps) as (_ & _ & _ & _ & _ & _ & _ & Hd & _).
-    destruct (Hd H Hsmall) as [_ Hq]. exact Hq.
+  - rewrite (beep_duration_general pin emitter_melodies st f on off times). apply Qle_refl.
+  - destruct (sweep_protocol pin emitter_melodies st s e d steps) as (_ & _ & _ & _ & _ & _ & _ & _ & Hd & _).
+    destruct Hd as [Hb _]. rewrite <- c_ulong_max in Hb.
+    eapply Qle_trans; [|apply c_ulong_le_qmax0]. rewrite <- Zle_Qle. exact Hb.
   - cbn [dstep]. unfold melody, score in *.
     destruct (tlookup name emitter_melodies) as [[t0 seq]|] eqn:El; [|cbn; apply Qle_refl].
     rewrite melody_loop_events. unfold delay_sum. rewrite delays_play_score.
@@ -702,56 +677,53 @@ Proof.
 Qed.
 
 (* ------------------------------------------------------------------ when is the pin left sounding? *)
-Lemma noop_dstep pin neg tbl st o : noop_call tbl o = true -> dstep pin neg tbl st o = (st, []).
+Lemma noop_dstep pin tbl st o : noop_call tbl o = true -> dstep pin tbl st o = (st, []).
 Proof.
   unfold noop_call. intro H. apply andb_true_iff in H as [Ht Hg]. apply negb_true_iff in Hg.
   destruct o as [f [d|]| |f on off times|s e d steps|name tempo]; cbn in Ht, Hg; try discriminate; cbn [dstep].
-  - unfold beep. apply Z.leb_gt in Hg.
-    replace (Z.to_nat (Z.max 0 (c_int times))) with 0%nat by lia. reflexivity.
   - unfold melody, score in *. destruct (tlookup name tbl) as [[t0 [|x r]]|]; try discriminate; reflexivity.
 Qed.
 
-Lemma run_snoc pin neg tbl st ops o :
-  run pin neg tbl st (ops ++ [o]) =
-  (fst (dstep pin neg tbl (fst (run pin neg tbl st ops)) o),
-   snd (run pin neg tbl st ops) ++ snd (dstep pin neg tbl (fst (run pin neg tbl st ops)) o)).
+Lemma run_snoc pin tbl st ops o :
+  run pin tbl st (ops ++ [o]) =
+  (fst (dstep pin tbl (fst (run pin tbl st ops)) o),
+   snd (run pin tbl st ops) ++ snd (dstep pin tbl (fst (run pin tbl st ops)) o)).
 Proof. rewrite run_app, run_single. reflexivity. Qed.
 
 (* C16_sounding_characterised: after any call sequence on a fresh buzzer the pin is sounding only if the last
    call that emitted any code was an untimed play_tone with a positive frequency - and then
    get_frequency = get_last_frequency = that frequency *)
-Lemma sounding_characterised : forall pin neg tbl default ops,
-  sounding (snd (run pin neg tbl (init default) ops)) = true ->
+Lemma sounding_characterised : forall pin tbl default ops,
+  sounding (snd (run pin tbl (init default) ops)) = true ->
   exists pre f post,
     ops = pre ++ [PlayTone f None] ++ post /\ (0 < f)%Q /\ forallb (noop_call tbl) post = true /\
-    get_frequency (fst (run pin neg tbl (init default) ops)) = f /\
-    get_last_frequency (fst (run pin neg tbl (init default) ops)) = f.
+    get_frequency (fst (run pin tbl (init default) ops)) = f /\
+    get_last_frequency (fst (run pin tbl (init default) ops)) = f.
 Proof.
-  intros pin neg tbl default ops. induction ops as [|o ops IH] using rev_ind; intro Hs.
+  intros pin tbl default ops. induction ops as [|o ops IH] using rev_ind; intro Hs.
   - cbn in Hs. discriminate.
   - destruct (noop_call tbl o) eqn:En.
     + (* nothing emitted: same trace, same state *)
-      rewrite run_snoc in Hs |- *. rewrite (noop_dstep pin neg tbl _ o En) in Hs |- *.
+      rewrite run_snoc in Hs |- *. rewrite (noop_dstep pin tbl _ o En) in Hs |- *.
       cbn [fst snd] in *. rewrite app_nil_r in Hs.
       destruct (IH Hs) as (pre & f & post & Ho & Hf & Hp & Hc & Hl).
       exists pre, f, (post ++ [o]). split; [rewrite Ho, <- !app_assoc; reflexivity|].
       split; [exact Hf|]. split; [rewrite forallb_app, Hp; cbn; rewrite En; reflexivity|].
       split; assumption.
-    + pose proof (getters_all_sequences pin neg tbl default (ops ++ [o])) as (H1 & _).
+    + pose proof (getters_all_sequences pin tbl default (ops ++ [o])) as (H1 & _).
       rewrite Hs in H1. unfold get_state in H1. rewrite run_snoc in H1. cbn [fst] in H1.
-      set (st := fst (run pin neg tbl (init default) ops)) in *.
+      set (st := fst (run pin tbl (init default) ops)) in *.
       destruct (timed o) eqn:Et.
       * (* a timed call inside the guard ends silent *)
         unfold noop_call in En. rewrite Et in En. cbn in En. apply negb_false_iff in En.
-        rewrite (timed_state_false pin neg tbl st o Et En) in H1. discriminate.
+        rewrite (timed_state_false pin tbl st o Et En) in H1. discriminate.
       * (* untimed: stop() (state false: contradiction, closed by discriminate) or play_tone(f) *)
         destruct o as [f [d|]| |f on off times|s e d steps|name tempo]; cbn in Et; try discriminate.
-        -- destruct (qlt q0 f) eqn:E.
-           ++ destruct (play_tone_protocol pin neg tbl st f q0) as [Hp _]. destruct (Hp E) as [Hd _].
-              exists ops, f, []. split; [reflexivity|]. split; [apply qlt_true; exact E|].
+        -- destruct (qlt_half_cases f) as [E|E].
+           ++ destruct (play_tone_protocol pin tbl st f q0) as [Hp _]. destruct (Hp E) as [Hd _].
+              exists ops, f, []. split; [reflexivity|]. split; [apply qlt_true; apply qhalf_pos; exact E|].
               split; [reflexivity|]. rewrite run_snoc. cbn [fst]. fold st. rewrite Hd. split; reflexivity.
-           ++ assert (E' : qle f q0 = true) by (rewrite qle_qlt, E; reflexivity).
-              destruct (play_tone_protocol pin neg tbl st f q0) as [_ Hp]. destruct (Hp E') as [Hd _].
+           ++ destruct (play_tone_protocol pin tbl st f q0) as [_ Hp]. destruct (Hp E) as [Hd _].
               rewrite Hd in H1. cbn in H1. discriminate.
 Qed.
 
@@ -759,124 +731,54 @@ Qed.
 Lemma delays_sound pin f st : delays (snd (sound pin f st)) = [].
 Proof. unfold sound. destruct (qlt q0 f); reflexivity. Qed.
 
+Lemma delays_dl ms : delays (dl ms) = if 0 <? ms then [ms] else [].
+Proof. unfold dl. destruct (0 <? ms); reflexivity. Qed.
+
 Lemma sweep_loop_delay_list pin s e steps sd k : forall i st,
-  delays (snd (sweep_loop pin s e steps sd k i st)) = if qlt q0 sd then repeat (Qfloor sd) k else [].
+  delays (snd (sweep_loop pin s e steps sd k i st)) = if 0 <? sd then repeat sd k else [].
 Proof.
-  induction k as [|k IH]; intros i st; [destruct (qlt q0 sd); reflexivity|].
+  induction k as [|k IH]; intros i st; [destruct (0 <? sd); reflexivity|].
   cbn [sweep_loop].
   pose proof (delays_sound pin (sweep_freq s e steps i) st) as Hs.
   destruct (sound pin (sweep_freq s e steps i) st) as [st1 e1]. cbn [snd] in Hs.
   specialize (IH (i + 1) st1).
   destruct (sweep_loop pin s e steps sd k (i + 1) st1) as [st2 e3]. cbn [fst snd] in *.
-  rewrite !delays_app, Hs, IH, delays_qdelay. destruct (qlt q0 sd); reflexivity.
+  rewrite !delays_app, Hs, IH, delays_dl. destruct (0 <? sd); reflexivity.
 Qed.
 
-Lemma step_delay_pos total n : 1 <= n -> qlt q0 (inject_Z total / inject_Z n) = (0 <? total).
-Proof.
-  intro Hn.
-  assert (Hnq : (0 < inject_Z n)%Q) by (change 0%Q with (inject_Z 0); rewrite <- Zlt_Qlt; lia).
-  destruct (0 <? total) eqn:E.
-  - apply Z.ltb_lt in E. apply qlt_true. apply Qlt_shift_div_l; [exact Hnq|].
-    rewrite Qmult_0_l. change 0%Q with (inject_Z 0). rewrite <- Zlt_Qlt. exact E.
-  - apply Z.ltb_ge in E. apply qlt_false. apply Qle_shift_div_r; [exact Hnq|].
-    unfold q0. rewrite Qmult_0_l. change 0%Q with (inject_Z 0). rewrite <- Zle_Qle. exact E.
-Qed.
-
-(* C16_sweep_delays: every step waits floor(duration) / steps ms (integer division; delay(0) when that is
-   0 but the duration is not), nothing at all for a zero duration *)
-Lemma sweep_delays : forall pin neg tbl st s e d steps,
-  qle q0 d = true -> Qfloor d < 2 ^ 24 ->
+(* C16_sweep_delays: every step waits max(0, floor(duration)) / steps ms (integer division), no delay call at
+   all when that quotient is 0 *)
+Lemma sweep_delays : forall pin tbl st s e d steps,
   let n := Z.max 1 (c_int steps) in
-  delays (snd (dstep pin neg tbl st (Sweep s e d steps))) =
-  if 0 <? Qfloor d then repeat (Qfloor d / n) (Z.to_nat n) else [].
+  let q := Z.max 0 (Qfloor d) / n in
+  delays (snd (dstep pin tbl st (Sweep s e d steps))) =
+  if 0 <? q then repeat q (Z.to_nat n) else [].
 Proof.
-  intros pin neg tbl st s e d steps Hd Hsmall n.
-  destruct (c_ulong_nonneg neg d Hd) as [Ed Pd].
-  cbn [dstep]. unfold sweep. fold n. rewrite Ed, (f32z_small _ Hsmall).
-  pose proof (sweep_loop_delay_list pin (clamp0 s) (clamp0 e) n (inject_Z (Qfloor d) / inject_Z n)%Q
-               (Z.to_nat n) 0 st) as Hl.
-  destruct (sweep_loop pin (clamp0 s) (clamp0 e) n (inject_Z (Qfloor d) / inject_Z n)%Q (Z.to_nat n) 0 st)
-    as [st1 e1].
-  cbn [fst snd] in *. rewrite delays_app, Hl. cbn [delays flat_map]. rewrite app_nil_r.
-  rewrite step_delay_pos by (subst n; lia). rewrite <- Zdiv_Qdiv. reflexivity.
+  intros pin tbl st s e d steps n q. subst q. rewrite <- c_ulong_max.
+  cbn [dstep]. unfold sweep. fold n.
+  pose proof (sweep_loop_delay_list pin (clamp0 s) (clamp0 e) n (c_ulong d / n) (Z.to_nat n) 0 st) as Hl.
+  destruct (sweep_loop pin (clamp0 s) (clamp0 e) n (c_ulong d / n) (Z.to_nat n) 0 st) as [st1 e1].
+  cbn [fst snd] in *. rewrite delays_app, Hl. cbn [delays flat_map]. rewrite app_nil_r. reflexivity.
 Qed.
 
 (* ------------------------------------------------------------------ tone(pin, 0): whole sequences *)
-Lemma last_nonempty_in {A} (d : A) : forall l a, In (last (a :: l) d) (a :: l).
+(* C16_no_zero_tone_sequences *)
+Lemma no_zero_tone_sequences : forall pin tbl st ops,
+  forallb (half_guard tbl) ops = true ->
+  Forall (fun t => 1 <= t) (tones (snd (run pin tbl st ops))).
 Proof.
-  induction l as [|b l IHl]; intro a; [left; reflexivity|].
-  change (last (a :: b :: l) d) with (last (b :: l) d). right. apply IHl.
+  intros pin tbl st ops. revert st. induction ops as [|o r IH]; intros st Ho; [constructor|].
+  cbn [forallb] in Ho. apply andb_true_iff in Ho as [Ho Hr].
+  pose proof (no_zero_tone pin tbl st o Ho) as H1.
+  cbn [run]. destruct (dstep pin tbl st o) as [st1 e1]. cbn [fst snd] in *.
+  specialize (IH st1 Hr). destruct (run pin tbl st1 r) as [st2 e2]. cbn [fst snd] in *.
+  rewrite tones_app. apply Forall_app; split; assumption.
 Qed.
 
-Lemma last_in_or_default {A} (l : list A) d : last l d = d \/ In (last l d) l.
-Proof. destruct l as [|a l]; [left; reflexivity|right; apply last_nonempty_in]. Qed.
-
-Lemma positives_In f l : In f (positives l) -> In f l /\ qlt q0 f = true.
-Proof. unfold positives. apply filter_In. Qed.
-
-Lemma audible_ge_half f : qle qhalf f = true -> audible_arg f = true.
-Proof. intro H. unfold audible_arg. rewrite H. apply orb_true_r. Qed.
-
-(* inside the guard the last frequency stays outside (0, 1/2) *)
-Lemma half_guard_last tbl st o :
-  half_guard tbl (b_last st) o = true -> audible_arg (b_last st) = true ->
-  audible_arg (last_after tbl st o) = true.
+(* on the generated table: unconditionally *)
+Lemma no_zero_tone_generated : forall pin st ops,
+  Forall (fun t => 1 <= t) (tones (snd (run pin emitter_melodies st ops))).
 Proof.
-  intros H Hl. destruct o as [f dur| |f on off times|s e dq steps|name tempo]; cbn [half_guard last_after] in *.
-  - destruct (qlt q0 f); assumption.
-  - exact Hl.
-  - set (x := match f with Some q => q | None => b_last st end) in *.
-    assert (Hx : audible_arg x = true) by (subst x; destruct f; assumption).
-    destruct (qlt q0 (clamp0 x) && (1 <=? c_int times)) eqn:E; [|exact Hl].
-    apply andb_true_iff in E as [E _].
-    assert (Hp : qlt q0 x = true).
-    { unfold clamp0 in E. destruct (qlt x q0) eqn:Ec in E; [discriminate|exact E]. }
-    rewrite (clamp0_pos _ Hp). exact Hx.
-  - destruct (last_in_or_default (positives (sweep_freqs (clamp0 s) (clamp0 e) (Z.max 1 (c_int steps)))) (b_last st))
-      as [Hd|Hin]; [rewrite Hd; exact Hl|].
-    set (x := last _ _) in *. clearbody x.
-    apply positives_In in Hin as [Hin Hp]. unfold sweep_freqs in Hin.
-    apply in_map_iff in Hin as (i & Hfq & Hi). apply in_seq in Hi. subst x.
-    apply orb_true_iff in H as [H|H].
-    + apply andb_true_iff in H as [Hs He].
-      rewrite (sweep_freq_zero (clamp0 s) (clamp0 e) _ _ (clamp0_nonpos_eq0 s Hs) (clamp0_nonpos_eq0 e He)) in Hp.
-      discriminate.
-    + apply andb_true_iff in H as [Hs He].
-      assert (Hcs : clamp0 s = s).
-      { apply clamp0_pos. apply qlt_true. apply qle_true in Hs. unfold qhalf, q0 in *. lra. }
-      assert (Hce : clamp0 e = e).
-      { apply clamp0_pos. apply qlt_true. apply qle_true in He. unfold qhalf, q0 in *. lra. }
-      rewrite Hcs, Hce. apply audible_ge_half. apply qle_true.
-      apply sweep_freq_ge_half; [apply qle_true; exact Hs|apply qle_true; exact He|lia|lia].
-  - destruct (tlookup name tbl) as [[t0 seq]|]; [|exact Hl].
-    destruct (last_in_or_default (positives (map fst seq)) (b_last st)) as [Hd|Hin]; [rewrite Hd; exact Hl|].
-    set (x := last _ _) in *. clearbody x.
-    apply positives_In in Hin as [Hin _]. apply in_map_iff in Hin as ([f b] & Hf & Hin). cbn in Hf. subst x.
-    rewrite forallb_forall in H. specialize (H _ Hin). cbn in H. exact H.
-Qed.
-
-Lemma half_guard_static_dyn tbl last o :
-  half_guard_static tbl o = true -> audible_arg last = true -> half_guard tbl last o = true.
-Proof.
-  destruct o as [f dur| |[f|] on off times|s e dq steps|name tempo]; cbn; auto.
-Qed.
-
-(* C16_no_zero_tone_sequences_partial *)
-Lemma no_zero_tone_sequences : forall pin neg tbl default ops,
-  audible_arg default = true -> forallb (half_guard_static tbl) ops = true ->
-  Forall (fun t => 1 <= t) (tones (snd (run pin neg tbl (init default) ops))).
-Proof.
-  intros pin neg tbl default ops Hd.
-  assert (G : forall ops st, audible_arg (b_last st) = true -> forallb (half_guard_static tbl) ops = true ->
-              Forall (fun t => 1 <= t) (tones (snd (run pin neg tbl st ops)))).
-  { clear. induction ops as [|o r IH]; intros st Hl Ho; [constructor|].
-    cbn [forallb] in Ho. apply andb_true_iff in Ho as [Ho Hr].
-    pose proof (half_guard_static_dyn tbl (b_last st) o Ho Hl) as Hg.
-    pose proof (no_zero_tone pin neg tbl st o Hg) as H1.
-    pose proof (half_guard_last tbl st o Hg Hl) as L1.
-    rewrite <- (last_frequency_exact pin neg tbl st o) in L1. unfold get_last_frequency in L1.
-    cbn [run]. destruct (dstep pin neg tbl st o) as [st1 e1]. cbn [fst snd] in *.
-    specialize (IH st1 L1 Hr). destruct (run pin neg tbl st1 r) as [st2 e2]. cbn [fst snd] in *.
-    rewrite tones_app. apply Forall_app; split; assumption. }
-  intro Ho. apply G; [exact Hd|exact Ho].
+  intros pin st ops. apply no_zero_tone_sequences. apply forallb_forall. intros o _.
+  apply table_audible_guard. exact generated_melodies_audible.
 Qed.
